@@ -40,3 +40,31 @@ register('C16', 'proof',
          not_decided=['exception-freedom of the unverified remainder of the handler-reachable call graph (listed by name)',
                       'web UI, statistics collector process, Supervisor patches, transport threads'],
          assumptions=['payload record shapes (contracts/shapes.py)', 'single-threaded atomic handlers'])
+register('C15', 'proof',
+         'Contracts transcribed from the statement and proved for all inputs on the real source of application.py: '
+         'update_state (priority STOPPING > STARTING/BACKOFF > RUNNING > STOPPED, loop invariant = exists-summaries), '
+         'update_status_required (major / minor failure, for any entry value of the flags), update_status_formula (major = '
+         'negation of the reference value of the formula, True on parse error or non-boolean result), update (the whole '
+         'statement on state / major_failure / minor_failure, composing the above through their contracts), the '
+         'status_formula setter and status_tree getter over a model of python ast nodes generated mechanically from the ASDL '
+         'signatures of the running interpreter (any single-statement module of any node classes). The reference value of a '
+         'formula is a pair of ghost functions (kind, value); ApplicationStatus.evaluate is checked against the reference '
+         'evaluator written from the statement by a BOUNDED exhaustive enumeration of real ast trees on the real function '
+         '(not counted as proved) plus a call-site whitelist scan (never calls anything but itself, _get_process_status, '
+         '_get_matches, the logger, type/len/any/all and eval on f"{all|any}({own result})").',
+         not_decided=['ApplicationStatus.evaluate for ALL trees (recursive proof over the ast datatype): the contract used by '
+                      'update_status_formula is backed by the bounded enumeration only (depth <= 3, alphabet of '
+                      'pyvc/structural_c15.py); the engine lacks union-typed list elements and exceptions inside '
+                      'comprehensions of modular calls',
+                      'regular-expression semantics of pattern leaves (re.compile / match are used as such by the reference)',
+                      'structural validity of ApplicationStatus (processes keyed by process_name, start sequence made of '
+                      'members of the map) is a precondition of update(), established by add_process / update_sequences, not '
+                      'proved here',
+                      'RecursionError of evaluate itself on very deep accepted formulas (python recursion limit not modelled)'],
+         assumptions=['ast.parse returns a finite tree conforming to the ASDL of the running interpreter (contracts/shapes.py '
+                      'ast_model) or raises SyntaxError / RecursionError / MemoryError',
+                      'Constant.value is abstracted to: a str, or None for any non-str constant (the code only tests '
+                      '`type(value) is str`)',
+                      'displayed state of a process = forced state if any, else synthetic state (proved by C11)',
+                      'handlers are atomic (single Supervisor thread)'],
+         extra='pyvc.structural_c15')
